@@ -22,6 +22,8 @@ pub fn cke(out: &mut Slices, c: &TlsClientKeyExchangeContents) {
         TlsClientKeyExchangeContents::Dh(b) => push(out, b, "cke.dh"),
         TlsClientKeyExchangeContents::Ecdh(p) => push(out, p.point, "cke.ecdh"),
         TlsClientKeyExchangeContents::Unknown(b) => push(out, b, "cke.unknown"),
+        #[allow(unreachable_patterns)]
+        _ => {}
     }
 }
 
@@ -70,6 +72,8 @@ pub fn handshake(out: &mut Slices, h: &TlsMessageHandshake) {
             push(out, n.selected_protocol, "np.proto");
             push(out, n.padding, "np.padding");
         }
+        #[allow(unreachable_patterns)]
+        _ => {}
     }
 }
 
@@ -79,6 +83,8 @@ pub fn message(out: &mut Slices, m: &TlsMessage) {
         TlsMessage::ChangeCipherSpec | TlsMessage::Alert(_) => {}
         TlsMessage::ApplicationData(d) => push(out, d.blob, "appdata.blob"),
         TlsMessage::Heartbeat(h) => push(out, h.payload, "heartbeat.payload"),
+        #[allow(unreachable_patterns)]
+        _ => {}
     }
 }
 
@@ -115,10 +121,14 @@ pub fn dtls_message(out: &mut Slices, m: &DTLSMessage) {
                 push(out, n.padding, "np.padding");
             }
             DTLSMessageHandshakeBody::Fragment(f) => push(out, f, "fragment"),
+            #[allow(unreachable_patterns)]
+            _ => {}
         },
         DTLSMessage::ChangeCipherSpec | DTLSMessage::Alert(_) => {}
         DTLSMessage::ApplicationData(d) => push(out, d.blob, "appdata.blob"),
         DTLSMessage::Heartbeat(h) => push(out, h.payload, "heartbeat.payload"),
+        #[allow(unreachable_patterns)]
+        _ => {}
     }
 }
 
